@@ -265,7 +265,7 @@ func c08Check(rec *core.Recorder, class string, set *mt.TmplSet, main string, ct
 			return
 		}
 	}
-	srcs := pr.SourceSet(set)
+	srcs := maybeLarge(rec, pr.SourceSet(set))
 	tk := &Ticker{}
 	res := renderFresh(srcs, main, ctxToGo(ctx), func(e *twig.Engine) { e.AddFunction("tick", tk.Fn) })
 	canon := canonSrcs(srcs) + canonCtx(ctx)
